@@ -272,6 +272,16 @@ func c01HashFamily(c *Ctx) {
 			continue
 		}
 		syms := familySymbols(f)
+		if len(syms) == 0 {
+			// the family may be named by a same-package helper the constructor calls (a per-role "shape"/config function)
+			for _, cs := range sitesOf(f) {
+				if cs.Callee != nil && pkgRelOf(cs.Callee) == pkgRelOf(f) && len(cs.Callee.Blocks) > 0 && cs.Callee != f {
+					for k := range familySymbols(cs.Callee) {
+						syms[k] = true
+					}
+				}
+			}
+		}
 		var other []string
 		has := false
 		for s := range syms {
